@@ -72,7 +72,7 @@ def count_verdicts(ctx, vs, prefix=""):
 
 
 def check_pass(ctx, prop, passname, e, apply, worlds, localise=True, allow_shape_change=False, side=None,
-               desc=None, need_agree=2, extra_key="", key_depth=1):
+               desc=None, need_agree=2, extra_key="", key_depth=1, key_override=None):
     """Returns 'held' | 'violated' | 'inconclusive' | 'skipped' | 'rejected'."""
     try:
         out = apply(e)
@@ -108,6 +108,8 @@ def check_pass(ctx, prop, passname, e, apply, worlds, localise=True, allow_shape
         if localise:
             culprit = localise_culprit(e, apply, worlds, side) or e
         key = f"{prop}/{passname}/{skeleton(culprit, key_depth)}{extra_key}"
+        if key_override:
+            key = f"{prop}/{passname}/{key_override}"
         ctx.violation(
             key,
             f"{passname} changed the value (rel. err {bad.err}, {bad.why}) on sub-expression {str(culprit)[:300]}",
